@@ -646,6 +646,23 @@ def run_retry_same_closure(res, chk, idx, n):
                     s = dict(sig, symptom="history_dependence", where="fresh")
                     res["violations"].append({"sig": s, "case": case, "detail": "fresh make_vjp after the failure differs"})
                     continue
+                # a closure whose VERY FIRST backward pass is the one that fails (nothing was computed before)
+                vjp_new, _ = make_vjp(f, x3)
+                state.update(n=0, at=k)
+                try:
+                    vjp_new(g)
+                except Fault:
+                    pass
+                state.update(n=0, at=None)
+                try:
+                    r2 = common.enc(onp.asarray(vjp_new(g)))
+                    r3 = common.enc(onp.asarray(vjp_new(g)))
+                except Exception as e:
+                    res["violations"].append({"sig": dict(sig, symptom="history_dependence", where="first_pass_failed"), "case": case, "detail": "a VJP function whose first backward pass failed at rule %d raised %s on the retry: %s" % (k, type(e).__name__, str(e)[:150])})
+                    continue
+                if r2 != ref or r3 != ref:
+                    res["violations"].append({"sig": dict(sig, symptom="history_dependence", where="first_pass_failed"), "case": case, "detail": "a VJP function whose first backward pass failed at rule %d returns %s afterwards, fault-free %s" % (k, common.brief(common.dec(r2)), common.brief(common.dec(ref)))})
+                    continue
                 res["judged"][sig_key(dict(sig, k=k))] = 1
             # the closure built at top level is applied *inside* another differentiation; its backward
             # pass fails at the k-th rule, the enclosing function catches that and goes on with a nested
@@ -870,6 +887,44 @@ def run_histories(res, chk, seed, idx, n, tier):
         if outs[0] != outs[1]:
             raise AssertionError("outcomes under warnings-as-errors differ between the first and the second evaluation: %s vs %s" % (outs[0], outs[1]))
 
+    def ev_operator_object_reuse(rng):
+        # one operator object (make_jvp(f), grad(f), value_and_grad(f), jacobian(f)) called several times - with other
+        # points, other extra arguments, a failing call in between - while results of earlier calls (the lazily
+        # evaluated pushforward in particular) are still in use: each result belongs to ITS call
+        from autograd import jacobian, value_and_grad
+
+        f = lambda x, c, scale=1.0: anp.sum(anp.sin(x * c)) * scale + anp.sum(x) * c[0]
+        x1, c1 = onp.array([0.3, -1.2, 0.8]), onp.array([1.5, 0.5, -2.0])
+        x2, c2 = onp.array([1.1, 0.4, -0.6]), onp.array([-0.5, 2.0, 1.0])
+        v = onp.array([1.0, -2.0, 0.5])
+        D = make_jvp(f)
+        exp1 = make_jvp(f)(x1, c1, scale=1.3)(v)
+        j1 = D(x1, c1, scale=1.3)
+        j2 = D(x2, c2)
+        try:
+            D(x1, "not an array")(v)
+        except Exception:
+            pass
+        r1 = j1(v)
+        r2 = j2(v)
+        exp2 = make_jvp(f)(x2, c2)(v)
+        if not (common.bits_equal(onp.asarray(r1[0]), onp.asarray(exp1[0])) and common.bits_equal(onp.asarray(r1[1]), onp.asarray(exp1[1]))):
+            raise AssertionError("pushforward obtained from make_jvp(f)(x1, c1) returns %r after the same operator object was called again, expected %r" % (r1, exp1))
+        if not (common.bits_equal(onp.asarray(r2[1]), onp.asarray(exp2[1]))):
+            raise AssertionError("second pushforward of one make_jvp(f) object: %r vs %r" % (r2, exp2))
+        for mkop in (grad, value_and_grad, jacobian):
+            op = mkop(f)
+            a1 = op(x1, c1, scale=1.3)
+            try:
+                op(x1, "not an array")
+            except Exception:
+                pass
+            a2 = op(x2, c2)
+            a1b = op(x1, c1, scale=1.3)
+            b1, b2 = mkop(f)(x1, c1, scale=1.3), mkop(f)(x2, c2)
+            if common.vhash(a1) != common.vhash(b1) or common.vhash(a2) != common.vhash(b2) or common.vhash(a1b) != common.vhash(b1):
+                raise AssertionError("%s(f) object reused across calls gives other results than fresh operator objects" % mkop.__name__)
+
     def ev_fail_check_grads_vjp_only(rng):
         # the bundled checker with its default modes on a primitive that has no forward rule: fails loudly
         from autograd.test_util import check_grads
@@ -884,7 +939,7 @@ def run_histories(res, chk, seed, idx, n, tier):
 
     events = {"fail_user": ev_fail_user, "fail_nested": ev_fail_nested, "fail_rule": ev_fail_rule, "fail_norule": ev_fail_norule, "fail_type": ev_fail_type, "fail_nonscalar": ev_fail_nonscalar,
               "fail_warning": ev_fail_warning, "fail_warning_nested": ev_fail_warning_nested, "fail_setitem": ev_fail_setitem, "caught_inside": ev_fail_caught_inside, "reentrant_rule": ev_reentrant_rule,
-              "reentrant_forward": ev_reentrant_forward, "recursion": ev_recursion, "register": ev_register, "deprecated": ev_deprecated, "ok_work": ev_ok_work, "rfft_options": ev_rfft_options, "fail_bad_cotangent": ev_fail_bad_cotangent, "warnings_as_errors": ev_warnings_as_errors, "fail_check_grads_vjp_only": ev_fail_check_grads_vjp_only}
+              "reentrant_forward": ev_reentrant_forward, "recursion": ev_recursion, "register": ev_register, "deprecated": ev_deprecated, "ok_work": ev_ok_work, "rfft_options": ev_rfft_options, "fail_bad_cotangent": ev_fail_bad_cotangent, "warnings_as_errors": ev_warnings_as_errors, "fail_check_grads_vjp_only": ev_fail_check_grads_vjp_only, "operator_object_reuse": ev_operator_object_reuse}
     names = sorted(events)
     for h in range(idx, total, n):
         rng = onp.random.Generator(onp.random.PCG64([seed, h, 79]))
